@@ -213,6 +213,15 @@ CloneFromMain(D, ru) ==
     HB!InsGrowNR(HB!CloneFromWithHasher(IF FixD6 /\ D.i = 0 THEN HB!ClearNoDrop(D) ELSE D, Main),
                  IF oP THEN cI ELSE 0, ru)
 
+\* dst.clone_from(self) where the destination's main table is D (its old table, if any, is
+\* dropped first): exploration continues from the destination
+CloneFromInto_En(D, ru) == Ok /\ (IF CursorBad THEN ru = 0 ELSE ru <= (IF oP THEN cI ELSE 0))
+CloneFromInto_Post(D, ru) ==
+    IF CursorBad THEN Fail("cursor_disagrees")
+    ELSE IF CloneFromUnderflows(D) THEN Fail("hb_clone_from_growth_left_underflow")
+    ELSE MkNoOld(CloneFromMain(D, ru))
+CloneFromInto(D, ru) == CloneFromInto_En(D, ru) /\ Apply(CloneFromInto_Post(D, ru))
+
 (***************************************************************************)
 (* Invariants                                                              *)
 (***************************************************************************)
